@@ -779,8 +779,10 @@ pub fn c14_eval(s: &str, acc: &mut Acc) {
 
 pub fn wall_cap(tier: Tier) -> u64 {
     let d = match tier {
-        Tier::Quick => 150,
-        Tier::Thorough => 40 * 60,
+        // generous on purpose: the caps only bound a run that has gone wrong; on a machine that is
+        // busy with other work a quick check may need several times its idle time
+        Tier::Quick => 900,
+        Tier::Thorough => 90 * 60,
     };
     std::env::var("VERIF_WALL_CAP").ok().and_then(|s| s.parse().ok()).unwrap_or(d)
 }
